@@ -129,6 +129,14 @@ def run_case(case):
             d = recorded.same_runs(base, p, what=("beta", "evidence", "series", "final"))
             if d:
                 viol.append({"mech": "C08/run-depends-on-checkpointing", "detail": f"{where}: checkpoint mode {mode}: {d[:3]}"})
+    if cfg["sampler"] in ("smc", "emcee_smc") and g.random() < 0.5:
+        # state carried across calls: a second fresh run on the same sampler object must be judged on its own iterations only
+        again = recorded.record_again(base, rng=np.random.default_rng(cfg["rng_seed"] + 17) if cfg["sampler"] == "smc" else None)
+        if again.exc is not None:
+            raise again.exc
+        counters["second_runs_on_same_sampler"] += 1
+        partners.append("again")
+        recorded.judge_evidence(again, where + " [second fresh run on the same sampler object]", viol, counters)
     sched = "fixed" if not cfg["opts"].get("adaptive", True) else ("floor" if "min_step" in cfg["opts"] else ("cap" if "max_n_steps" in cfg["opts"] else "adaptive"))
     sig = f"{cfg['sampler']}|{cfg['xp']}|{cfg['dtype']}|{sched}|{cfg['precond']['preconditioning']}{sorted(cfg['precond']['kwargs'])}|{T}|{'+'.join(partners)}"
     seen = {}
